@@ -22,7 +22,8 @@ import (
 // response shows an entry overwritten by the second request), each response
 // judged by the oracle of part 1 with the maximum of its own request. Key draws
 // are fixed to the two vectors of keyVectors (which address is selected is not
-// what the cache can get wrong; every draw sequence is part 1's business).
+// what the cache can get wrong; every draw sequence is part 1's business, and
+// a verdict that the same request gets without the cache too is left to part 1).
 
 type creq struct {
 	S  slot   `json:"slot"`
@@ -74,6 +75,20 @@ func cacheSeq(w *world, r1, r2 creq, combo int, st *e2eStats) [3]observation {
 		nk, _ := w.keyDraws(q.S, q.Cl)
 		kv := keyVectors(nk)[cacheCombos[combo][step&1]]
 		out[step] = serveOn(h, w, q.S, q.Cl, q.M, kv, nil)
+		if len(out[step].Kinds) > 0 {
+			// a clause that the same request with the same draws violates without the cache as well is part 1's
+			// finding (part 1 serves these sets with every draw sequence), not the cache's
+			plain := serveOn(w.h, w, q.S, q.Cl, q.M, kv, nil)
+			var own []string
+			for _, k := range out[step].Kinds {
+				if !plain.has(k) {
+					own = append(own, k)
+				} else if st != nil {
+					st.cacheAlsoPlain++
+				}
+			}
+			out[step].Kinds = own
+		}
 		if st != nil {
 			st.cacheEvals++
 			if out[step].NonTriv {
